@@ -1066,7 +1066,8 @@ ensures
     U.assumed_parser = (['%s::%s() returns Some — %s' % (k[0], k[1], v[1]) for k, v in sorted(ACC_SOME.items()) if v[0] == AP]
                         + ['%s::%s(): %s — %s' % (k[0], k[1], v[1], v[2]) for k, v in sorted(ACC_CUSTOM.items())]
                         + ['%s: arm `%s…` unreachable — %s' % (g[0], g[1][:40], g[3]) for g in PANIC_GUARDS if g[2] == AP])
-    U.assumed_dep = ['AST accessors (%d on %d node types) are external_body; they are functions of the (immutable) node (uninterpreted sp_<name>) and otherwise unconstrained' % (n_acc, n_nodes),
+    U.assumed_dep = ['source::axiom_include_depth: the include tree of a SourceFile is finite (`included: Vec<SourceFile>` is owned data): every file has a depth above the files it includes -- the termination measure of oq3_have_syntax_errors / has_errs',
+                     'AST accessors (%d on %d node types) are external_body; they are functions of the (immutable) node (uninterpreted sp_<name>) and otherwise unconstrained' % (n_acc, n_nodes),
                      'Context (symbol table, diagnostics, const values) is opaque with a ghost view; lookup_symbol / lookup_gate_symbol / new_binding carry the contracts proved in unit SYM',
                      'the unverified analyser functions (closures capturing &mut Context) are assumed to only append diagnostics',
                      'Context::standard_library_gates (flat_map / filter closures with side effects: not verified) is assumed to leave every name listed in SymbolTable::standard_library_gates bound (by it, or already before it)',
